@@ -51,6 +51,10 @@ fn case(ctx: &mut Ctx, r: &Range, len: usize, carrier: usize) {
         // split applied to a list (the parts of an earlier split are split again and flattened)
         8 => (vec![Op::Split(",".into(), Range::Range(None, None, false)), Op::Split("-".into(), r.clone()), Op::Join("+".into())],
               LETTERS[..len].chunks(2).map(|c| c.join("-")).collect::<Vec<_>>().join(",")),
+        // characters of a string that begins with a multi-byte character and continues in ASCII
+        11 => (vec![Op::Substring(r.clone())], if len == 0 { String::new() } else { format!("é{}", LETTERS[..len - 1].concat()) }),
+        // split applied to a list that an earlier step has emptied
+        10 => (vec![Op::Split(",".into(), Range::Range(None, None, false)), Op::Filter("^ZZZ$".into()), Op::Split("-".into(), r.clone())], LETTERS[..len].join(",")),
         // slice directly after sort
         9 => (vec![Op::Split(",".into(), Range::Range(None, None, false)), Op::Sort(crate::ast::SDir::Desc), Op::Slice(r.clone()), Op::Join(",".into())], LETTERS[..len].join(",")),
         // a separator of two characters that overlaps itself, items ending in its first character
@@ -77,7 +81,7 @@ fn case(ctx: &mut Ctx, r: &Range, len: usize, carrier: usize) {
     if ctx.rep.samples.len() < 6 && len == 5 && matches!(r, Range::Range(Some(-3), Some(9), true)) {
         ctx.rep.sample(format!("{} on {:?} -> {}", t.text, input, t.real.show()));
     }
-    ctx.rep.bump(match carrier { 0 => "carrier_split", 1 => "carrier_slice", 2 => "carrier_substring_ascii", 3 => "carrier_substring_unicode", 4 => "carrier_shorthand", 5 => "carrier_split_in_pipeline", 6 => "carrier_split_in_map", 8 => "carrier_split_on_list", 9 => "carrier_slice_after_sort", _ => "carrier_split_overlapping_separator" });
+    ctx.rep.bump(match carrier { 0 => "carrier_split", 1 => "carrier_slice", 2 => "carrier_substring_ascii", 3 => "carrier_substring_unicode", 4 => "carrier_shorthand", 5 => "carrier_split_in_pipeline", 6 => "carrier_split_in_map", 8 => "carrier_split_on_list", 9 => "carrier_slice_after_sort", 10 => "carrier_split_on_emptied_list", 11 => "carrier_substring_mixed", _ => "carrier_split_overlapping_separator" });
     judge(ctx, "C06", &t, &ops, &input, "apply_range_is_select / C06_carriers");
     // no index or range the parser accepts causes an error (on a well-typed carrier)
     if matches!(t.real, crate::driver::Out::Err | crate::driver::Out::Panic) && t.parsed_same {
@@ -90,7 +94,7 @@ fn case(ctx: &mut Ctx, r: &Range, len: usize, carrier: usize) {
 pub fn run(opts: &Opts) -> Report {
     let ranges = all_ranges();
     let mut cases: Vec<(Range, usize, usize)> = Vec::new();
-    for r in &ranges { for l in 0..=7usize { for c in 0..10 { cases.push((r.clone(), l, c)); } } }
+    for r in &ranges { for l in 0..=7usize { for c in 0..12 { cases.push((r.clone(), l, c)); } } }
     let exhaustive_n = cases.len() as u64;
     let random_n = opts.cases(4_000, 200_000);
     let cases_ref = &cases;
@@ -103,7 +107,7 @@ pub fn run(opts: &Opts) -> Report {
             } else {
                 let r = crate::gens::range(&mut ctx.rng);
                 let l = ctx.rng.below(8);
-                let c = ctx.rng.below(10);
+                let c = ctx.rng.below(12);
                 case(ctx, &r, l, c);
             }
         });
